@@ -107,7 +107,7 @@ func (p histProp) generate(rng *rand.Rand, doc string, faulty bool, maxLen int, 
 		for try := 0; only != nil && !only[sw.Family(s.Op)] && try < 400; try++ {
 			s = p.store.Gen(rng, m, aux)
 		}
-		if faulty && rng.IntN(4) == 0 {
+		if faulty && rng.IntN(4) == 0 && !s.NoFault {
 			s.Fault = &StepFault{Kind: faultKinds[rng.IntN(len(faultKinds))], N: 1 + rng.IntN(40)}
 		}
 		m.Apply(s)
